@@ -26,12 +26,6 @@ Proof. induction k as [|k IH]; intros l H; [exact H|]. destruct l; [exact H|]. i
 
 Definition d0 : nat -> nat -> R := fun _ _ => 0.
 
-Lemma nth_map_seq {X} (F : nat -> X) d a len t : (t < len)%nat -> nth t (map F (seq a len)) d = F (a + t)%nat.
-Proof.
-  intros H. rewrite (nth_indep _ d (F 0%nat)) by (rewrite map_length, seq_length; assumption).
-  rewrite map_nth. rewrite seq_nth by assumption. reflexivity.
-Qed.
-
 Section ChainIndex.
 Variable M : nat.
 Local Notation fwd := (c_fwd NumR M).
@@ -113,10 +107,10 @@ Lemma mass_x0 t i j : (t < n - 1)%nat -> c_mass M a0 fs t i j = sq_x0 t i j.
 Proof. intros Ht. unfold c_mass, sq_x0, sq_al, sq_be, fs. rewrite hfs_nth by assumption. ring. Qed.
 
 (* sum_i x0_t(i,j) = g0_{t+1}(j) *)
-Lemma x0_sum t j : (t < n - 1)%nat -> rsum M (fun i => sq_x0 t i j) = sq_g0 (S t) j.
+Lemma x0_sum t j : (t < n - 1)%nat -> (j < M)%nat -> rsum M (fun i => sq_x0 t i j) = sq_g0 (S t) j.
 Proof.
-  intros Ht. unfold sq_g0, sq_al. rewrite (fwd_S M fs a0 t) by (unfold fs; rewrite hfs_len; assumption).
-  rewrite step_R. unfold fs at 2. rewrite hfs_nth by assumption. rewrite <- rsum_scal_r.
+  intros Ht Hj. unfold sq_g0, sq_al. rewrite (fwd_S M fs a0 t) by (unfold fs; rewrite hfs_len; assumption).
+  rewrite step_R by assumption. unfold fs at 2. rewrite hfs_nth by assumption. rewrite <- rsum_scal_r.
   apply rsum_ext. intros i Hi. unfold sq_x0, sq_al. ring.
 Qed.
 (* both normalisers of the code are the likelihood *)
@@ -125,7 +119,7 @@ Proof. intros Hk. unfold sq_g0, sq_al, sq_be, sq_L. apply fwd_bwd_const. unfold 
 Lemma x0_total t : (t < n - 1)%nat -> rsum M (fun i => rsum M (fun j => sq_x0 t i j)) = sq_L.
 Proof.
   intros Ht. rewrite rsum_swap. rewrite <- (g0_total (S t)) by lia.
-  apply rsum_ext. intros j Hj. apply x0_sum. assumption.
+  apply rsum_ext. intros j Hj. apply x0_sum; assumption.
 Qed.
 Lemma lik_is_L : rsum M (sq_al (n - 1)) = sq_L.
 Proof. unfold sq_al, sq_L. rewrite <- (c_L_fwd M a0 fs). replace (length fs) with (n - 1)%nat by (unfold fs; rewrite hfs_len; reflexivity). reflexivity. Qed.
